@@ -31,6 +31,10 @@ def make_scenario(rng, knobs):
     scenario = {'instances': specs, 'options': options, 'model': model, 'rules_xml': gen.rules_xml(model),
                 'sched': gen.gen_sched(rng, specs, knobs.get('profiles')),
                 'behaviours': knobs.get('behaviours', {})}
+    if knobs.get('handshake_skew'):
+        # the XML-RPCs of a handshake take time: its answers (state and modes of the peer ...) are delivered later than
+        # what the peer publishes meanwhile
+        scenario['sched'] = dict(scenario['sched'], handshake_skew=knobs['handshake_skew'])
     return scenario
 
 
